@@ -87,6 +87,22 @@ def _mk_prod_all(kind, R):
     return ob
 
 
+def _mk_update_Sigma(kind, R):
+    def ob(w):
+        from .. import spec as SP
+        from .wf import wf_conditional
+        h = SP.gen_cond_handle(w, kind, "c", R, "Dy", "Dy" if kind.startswith("identity") else "Dx")
+        g = w.spd("n", SP.batch(R), "Dy")
+        h.obj.update_Sigma(g["S"])                                       # REAL (in place)
+        wf_conditional(w, "receiver-after", h.obj)
+        w.equal("Sigma-replaced", h.obj.Sigma, g["S"])
+        w.equal("ln_det_Sigma", h.obj.ln_det_Sigma, g["ld"])
+        if R != 1:
+            bad = w.spd("m", SP.batch("R2"), "Dy")
+            w.raises("shape-mismatch-refused", (ValueError,), lambda: h.obj.update_Sigma(bad["S"]))
+    return ob
+
+
 def _funcs(fkind, op):
     base = {"general": "factor.ConjugateFactor", "rank-one": "factor.OneRankFactor", "linear": "factor.LinearFactor",
             "constant": "factor.ConstantFactor"}.get(fkind, "factor.ConjugateFactor")
@@ -107,6 +123,11 @@ def _register():
                                tier="quick" if quick else "thorough",
                                lemmas=["GtvLemmas.det_rank_one_update"] if fkind == "rank-one" else [])(
                             _mk_product_op(ukind, fkind, op, R1, R2, uf))
+    for kind in ("full", "identity"):
+        for R in ("R", 1):
+            from .. import spec as SP
+            REG.ob(f"update_Sigma/{SP.COND_CLS[kind]}/R={R}", sorts=(["R", "R2"] if R != 1 else []) + ["Dy"] + ([] if kind == "identity" else ["Dx"]),
+                   funcs=[f"conditional.{SP.COND_CLS[kind]}.update_Sigma"])(_mk_update_Sigma(kind, R))
     orders = [("log_integral_light", "log_integral", "get_density"), ("get_density", "log_integral_light"),
               ("compute_mu", "log_integral_light", "evaluate"), ("integrate_x", "invert_lambda", "log_integral"),
               ("evaluate", "get_density", "integrate_x")]
